@@ -191,6 +191,32 @@ def run(ctx):
             if got != want:
                 ctx.violation({"source": src, "strict_undefined": strict, "rendered": got, "expected": want},
                               "a name used inside a filter list was not taken from the template's scope", tags=["c02.context-names"])
+    # the arguments of a filter call are generated again from their syntax tree: an escape sequence in them must survive the way
+    # to a module file written in the template's own (narrower) encoding
+    import os as _os
+    import shutil as _shutil
+    import tempfile as _tempfile
+    work_ = _tempfile.mkdtemp(prefix="c02_")
+    try:
+        for codec, lit in [("latin-1", "'\\u20ac'"), ("ascii", "'\\xe9'"), ("latin-1", "'\\U0001d4b3x'"), ("iso-8859-15", "'\\u0416' + '\\u00a4'")]:
+            ctx.evaluations += 1
+            n_spell += 1
+            fn_ = _os.path.join(work_, "t_%s_%d.html" % (codec.replace("-", ""), n_spell))
+            body = "## -*- coding: %s -*-\n${%s}|${v | padw(%s)}" % (codec, lit, lit)
+            with open(fn_, "wb") as f_:
+                f_.write(body.encode(codec))
+            outs_ = {}
+            for path_, kw_ in [("file", {}), ("module-directory", {"module_directory": _os.path.join(work_, "mods")})]:
+                try:
+                    outs_[path_] = Template(filename=fn_, default_filters=[], **kw_).render_unicode(v="v", padw=lambda t_: (lambda s_: s_ + t_))
+                except Exception as e:  # noqa
+                    outs_[path_] = "raised %s: %s" % (type(e).__name__, str(e)[:80])
+            want_ = eval(lit) + "|v" + eval(lit)
+            if outs_["file"] != want_ or outs_["module-directory"] != want_:
+                ctx.violation({"source": body, "encoding": codec, "rendered": outs_, "expected": want_},
+                              "an escape sequence in the argument of a filter call does not survive the way into a module file", tags=["c02.filter-argument.module-encoding"])
+    finally:
+        _shutil.rmtree(work_, ignore_errors=True)
     ctx.generators["filter_list_spellings"] = {"cases": n_spell}
 
     # ---- 2. filter= on defs, blocks and <%text>, and buffer_filters ---------------------------------
